@@ -12,17 +12,17 @@ Proof.
   destruct (HI T) as [G _]. pose proof (HL T) as L. pose proof (HZ T) as Z. pose proof (HY T) as Y.
   cbn [stepr] in H. unfold step_pw_send in H. chks H. okinv H. b2p.
   destruct a; [| exfalso; unfold F in H3'; destruct o; rd; discriminate].
-  destruct o; [exfalso; unfold F in H2'; rd; discriminate |].
+  assert (H2 : no1pc s T) by (intros r0 ks0 m0 o0 Hi; apply (H2' r0 ks0 m0 o0); exact Hi). clear H2'.
   match goal with |- ainv (setc _ T ?cc) T => set (c' := cc) in * end.
-  assert (RC : (forall f0, f0 <> FPwSent -> f0 <> FTriedA -> f0 <> FFb1 -> cn c' f0 = cn (getc s T) f0) /\
+  assert (RC : (forall f0, f0 <> FPwSent -> f0 <> FTriedA -> f0 <> FFb1 -> f0 <> FTried1 -> cn c' f0 = cn (getc s T) f0) /\
                c_lm c' = c_lm (getc s T) /\ c_all c' = c_all (getc s T) /\ c_pwok c' = c_pwok (getc s T) /\ c_lam c' = c_lam (getc s T) /\
                forall t k, kcnt c' t k = (if KSent =? t then occ k ks else 0) + kcnt (getc s T) t k).
-  { unfold c'. repeat split; try reflexivity.
-    - intros f0 A1 A2 A3. rewrite !cn_setn_ne, cn_add_kl, cn_incn_ne; auto.
-    - intros. rewrite !kcnt_setn. rewrite kcnt_add_kl, kcnt_incn. reflexivity. }
+  { unfold c'. destruct o; repeat split; try reflexivity.
+    1,3: intros f0 A1 A2 A3 A4; rewrite !cn_setn_ne, cn_add_kl, cn_incn_ne; auto.
+    all: intros; rewrite !kcnt_setn; rewrite kcnt_add_kl, kcnt_incn; reflexivity. }
   destruct RC as [Rf [R8 [R9 [R10 [R11 R12]]]]]. clearbody c'.
   unfold hasm, F in *. rewrite getc_setc_eq in *.
-  rewrite (Rf FHasm), (Rf FTried1), (Rf FFb), (Rf FStFb) in * by discriminate.
+  rewrite (Rf FHasm), (Rf FFb), (Rf FStFb) in * by discriminate.
   assert (NoRb : forall r0 ks0, ~ In (ERbSend r0 T ks0) (s_sent s)).
   { intros r0 ks0 Hi. apply (g_rb_dead _ _ G) in Hi. unfold F in Hi. congruence. }
   assert (El : forall k, lam c' k = lam (getc s T) k) by (intros; unfold lam; rewrite R11; auto).
@@ -44,6 +44,8 @@ Proof.
     + auto.
     + exfalso; eapply NoS; eauto.
     + exfalso; eapply NoD; eauto.
+    + rewrite (Rf F1pcTs) by discriminate. destruct (N.eq_dec (cn (getc s T) F1pcTs) 0) as [Ez | Ez]; auto.
+      exfalso. apply (z_tried _ _ Z); [right; apply (g_1pcts _ _ G); auto | auto].
     + rewrite L0 in H. discriminate.
     + rewrite !R12, !K0. cbn. split; lia.
     + exfalso. destruct (KF k); congruence.
@@ -63,11 +65,11 @@ Proof.
   - (* a further request of an async-commit transaction *)
     assert (HA : ainv s T).
     { apply AI. destruct (z_mode _ _ Z En0) as [_ [B | B]]; repeat split; auto; unfold F in *; congruence. }
-    assert (Es : Sealed (setc (add_sent s (EPwSend r T p ks true false m f secs)) T c') T <-> Sealed s T).
+    assert (Es : Sealed (setc (add_sent s (EPwSend r T p ks true o m f secs)) T c') T <-> Sealed s T).
     { unfold Sealed, lm, lamk. rd. rewrite R8. split; intros S k Hk; specialize (S k Hk); rewrite ?El in *; auto. }
-    assert (Ec : cstar (setc (add_sent s (EPwSend r T p ks true false m f secs)) T c') T = cstar s T).
+    assert (Ec : cstar (setc (add_sent s (EPwSend r T p ks true o m f secs)) T c') T = cstar s T).
     { unfold cstar, lm. rd. rewrite R8. apply fold_max_ext. intros k. unfold lam0, lamk. rd. rewrite El. auto. }
-    assert (En : NSa s T -> NSa (setc (add_sent s (EPwSend r T p ks true false m f secs)) T c') T).
+    assert (En : NSa s T -> NSa (setc (add_sent s (EPwSend r T p ks true o m f secs)) T c') T).
     { intros N. destruct (NSa_not_flavor2 s T) as [k0 [K1 [K2 K3]]]; auto.
       exists k0. unfold lm, lamk, F in *. rd. rewrite El, R8. auto. }
     constructor; intros; rewrite ?Ec, ?Es; unfold call, kc, lm, lamk, prim, pwok, F in *; rd; rewrite ?El, ?R8, ?R9, ?R10 in *;
@@ -77,6 +79,7 @@ Proof.
     + auto.
     + eapply (a_send _ _ HA); eauto.
     + apply (a_entry _ _ HA _ _ _ _ H).
+    + rewrite (Rf F1pcTs) by discriminate. apply (a_1pcts _ _ HA).
     + eapply (a_lam _ _ HA); eauto.
     + rewrite !R12. cbn. destruct (a_cnt _ _ HA k) as [B1 B2]. unfold kc in *. split; lia.
     + apply (a_commit _ _ HA _ _ H).
@@ -99,31 +102,42 @@ Lemma ainv_pw_reply : forall s s' r T ks x, Inv s -> Linv s -> stepr s (EPwReply
 Proof.
   intros s s' r T ks x HI HL H AI [Hm' [H1' [H2' [H3' H4']]]]. destruct (HI T) as [G _]. pose proof (HL T) as L.
   cbn [stepr] in H. unfold step_pw_reply in H. chks H. okinv H. apply delivered_In in C0.
+  assert (H2 : no1pc s T) by (intros r0 ks0 m0 o0 Hi; apply (H2' r0 ks0 m0 o0); exact Hi). clear H2'.
   match goal with |- ainv (setc _ T ?cc) T => set (c' := cc) in * end.
+  set (bm := negb (fb (getc s T) FHasm) || existsb (fun k => mem k (c_lm (getc s T))) ks).
   assert (RC : (forall f0, f0 <> FPwRep -> f0 <> FPwErr -> f0 <> FMinc -> f0 <> FFb -> f0 <> FFb1 -> f0 <> F1pcTs -> cn c' f0 = cn (getc s T) f0) /\
                (cn c' FFb = 0 -> cn (getc s T) FFb = 0 /\ forall m o, x = PwOk m o -> m <> 0) /\
+               ((exists m o, x = PwOk m o /\ o <> 0) \/ cn c' F1pcTs = cn (getc s T) F1pcTs) /\
                c_lm c' = c_lm (getc s T) /\ c_all c' = c_all (getc s T) /\ c_lam c' = c_lam (getc s T) /\
                c_pwok c' = (match x with PwOk _ _ => ks | _ => [] end) ++ c_pwok (getc s T) /\
-               cn c' FMinc = (match x with PwOk m _ => N.max (cn (getc s T) FMinc) m | _ => cn (getc s T) FMinc end) /\
+               cn c' FMinc = (match x with PwOk m _ => if bm then N.max (cn (getc s T) FMinc) m else cn (getc s T) FMinc | _ => cn (getc s T) FMinc end) /\
                (forall k, kcnt c' KSent k = kcnt (getc s T) KSent k /\ kcnt c' KDlv k = kcnt (getc s T) KDlv k /\
                           kcnt c' KNegD k = kcnt (getc s T) KNegD k /\ kcnt c' KRep k = occ k ks + kcnt (getc s T) KRep k /\
                           kcnt c' KNeg k = (match x with PwOk _ _ => 0 | _ => occ k ks end) + kcnt (getc s T) KNeg k)).
   { unfold c'. destruct x as [m o | kd |].
-    - repeat (rewrite ?fb_add_pwok, ?fb_add_kl; try rewrite fb_setn_ne by discriminate; try rewrite fb_incn_ne by discriminate).
-      destruct (o =? 0) eqn:Eo, (m =? 0) eqn:Em0, (fb (getc s T) FTried1) eqn:Et; rd; repeat split; try reflexivity; intros;
+    - cbn [c_lm add_pwok add_kl incn setn]. unfold onepc_on.
+      repeat (rewrite ?fb_add_pwok, ?fb_add_kl; try rewrite fb_setn_ne by discriminate; try rewrite fb_incn_ne by discriminate).
+      fold bm. destruct bm;
+      repeat (rewrite ?fb_add_pwok, ?fb_add_kl; try rewrite fb_setn_ne by discriminate; try rewrite fb_incn_ne by discriminate);
+      destruct (o =? 0) eqn:Eo, (m =? 0) eqn:Em0, (fb (getc s T) FTried1) eqn:Et, (fb (getc s T) FFb1) eqn:Ef1; cbn [andb negb]; rd; repeat split; try reflexivity; intros;
         try discriminate;
         try (repeat rewrite cn_setn_ne by auto; rewrite ?cn_add_pwok, ?cn_add_kl; rewrite cn_incn_ne by auto; reflexivity);
         try (match goal with Hx : PwOk _ _ = PwOk _ _ |- _ => inversion Hx; subst end; apply N.eqb_neq in Em0; auto; fail);
+        try (right; reflexivity); try (left; eexists; eexists; split; [reflexivity | apply N.eqb_neq; exact Eo]);
         rewrite ?kcnt_setn, ?kcnt_add_pwok; repeat rewrite kcnt_add_kl; rewrite ?kcnt_incn; cbn; try lia; try reflexivity.
     - rd. repeat split; try reflexivity; intros; try discriminate;
         try (repeat rewrite cn_setn_ne by auto; rewrite ?cn_add_kl; rewrite cn_incn_ne by auto; reflexivity);
+        try (right; reflexivity);
         rewrite ?kcnt_setn; repeat rewrite kcnt_add_kl; rewrite ?kcnt_incn; cbn; try lia; reflexivity.
     - rd. repeat split; try reflexivity; intros; try discriminate;
         try (rewrite ?cn_add_kl; rewrite cn_incn_ne by auto; reflexivity);
+        try (right; reflexivity);
         repeat rewrite kcnt_add_kl; rewrite ?kcnt_incn; cbn; try lia; reflexivity. }
-  destruct RC as [Rf [Rfb [R8 [R9 [R11 [R10 [Rm Rk]]]]]]]. clearbody c'.
+  destruct RC as [Rf [Rfb [R1p [R8 [R9 [R11 [R10 [Rm Rk]]]]]]]]. clearbody c'.
   unfold hasm, F in *. rewrite getc_setc_eq in *.
-  rewrite (Rf FHasm), (Rf FTriedA), (Rf FTried1), (Rf FStFb) in * by discriminate. destruct (Rfb H3') as [H3 Hm0].
+  rewrite (Rf FHasm), (Rf FTriedA), (Rf FStFb) in * by discriminate. destruct (Rfb H3') as [H3 Hm0].
+  assert (Ebm : bm = existsb (fun k => mem k (c_lm (getc s T))) ks).
+  { unfold bm. rewrite (proj2 (fb_true _ _) Hm'). reflexivity. }
   assert (Am : asyncm s T) by (repeat split; auto).
   pose proof (AI Am) as HA. destruct (asyncm_cp _ _ Am) as [Hcp _]. rewrite Hcp in C1, C2. cbn [negb orb] in C1, C2.
   set (s1 := setc s T c') in *.
@@ -139,15 +153,19 @@ Proof.
   { intros k. unfold kc, s1. rd. destruct (Rk k) as [E1 [E2 [E3 _]]]. auto. }
   assert (En : NSa s T -> NSa s1 T).
   { intros [k0 [K1 [K2 K3]]]. exists k0. rewrite Em, El, Kg, Et, Ed. destruct (Ekc k0) as [E1 [E2 _]]. rewrite E1, E2. auto. }
-  assert (Emc : F s1 T FMinc = match x with PwOk m _ => N.max (F s T FMinc) m | _ => F s T FMinc end) by (unfold F, s1; rd; exact Rm).
+  assert (Emc : F s1 T FMinc = match x with PwOk m _ => if bm then N.max (F s T FMinc) m else F s T FMinc | _ => F s T FMinc end) by (unfold F, s1; rd; exact Rm).
   assert (Epw : pwok s1 T = (match x with PwOk _ _ => ks | _ => [] end) ++ pwok s T) by (unfold pwok, s1; rd; exact R10).
   (* what an ok reply tells about its keys *)
-  assert (Hent : forall m o, x = PwOk m o -> o = 0 /\ m <> 0 /\ (exists k, In k ks /\ In k (lm s T)) /\
+  assert (Hent : forall m o, x = PwOk m o -> o = 0 /\ m <> 0 /\
                   forall k, In k ks -> lamk s T k = Some m \/ kget s T k = Committed m).
   { intros m o ->. apply (a_entry _ _ HA _ _ _ _ C0). }
+  assert (Hbm : bm = true <-> exists k, In k ks /\ In k (lm s T)).
+  { rewrite Ebm. unfold lm. rewrite existsb_exists. split; intros [k [K1 K2]]; exists k; split; auto; apply mem_In; auto. }
   constructor; intros; rewrite ?El, ?Em, ?Es, ?Ec, ?Ep, ?Et, ?Kg in *.
   - eapply (a_send _ _ HA); eauto.
-  - destruct (a_entry _ _ HA _ _ _ _ H) as [B1 [B2 [B3 B4]]]. repeat split; auto. intros k Hk. rewrite ?El, ?Kg. auto.
+  - destruct (a_entry _ _ HA _ _ _ _ H) as [B1 [B2 B4]]. repeat split; auto. intros k Hk. rewrite ?El, ?Kg. auto.
+  - unfold F, s1. rd. destruct R1p as [[m [o [-> Ho]]] | R1p]; [| rewrite R1p; apply (a_1pcts _ _ HA)].
+    exfalso. apply Ho. apply (Hent m o eq_refl).
   - eapply (a_lam _ _ HA); eauto.
   - destruct (Ekc k) as [E1 [E2 E3]]. rewrite E1, E3, E2. destruct (a_cnt _ _ HA k) as [B1 B2]. split; auto.
     unfold kc, s1. rd. destruct (Rk k) as [_ [_ [_ [_ E5]]]]. rewrite E5. unfold kc in *.
@@ -167,11 +185,13 @@ Proof.
   - eapply (a_cslsent _ _ HA); eauto.
   - (* the owner's view of the min-commit ts *)
     rewrite Epw in H0. rewrite Emc. apply in_app_or in H0. destruct H0 as [H0 | H0].
-    + destruct x as [m o | |]; try (destruct H0; fail). destruct (Hent m o eq_refl) as [_ [_ [_ B4]]].
+    + destruct x as [m o | |]; try (destruct H0; fail). destruct (Hent m o eq_refl) as [_ [_ B4]].
+      assert (Eb : bm = true) by (apply Hbm; exists k; auto). rewrite Eb.
       exists m. split; [lia | apply B4; auto].
-    + destruct (a_minc _ _ HA _ H H0) as [m' [B1 B2]]. exists m'. split; auto. destruct x; lia.
+    + destruct (a_minc _ _ HA _ H H0) as [m' [B1 B2]]. exists m'. split; auto. destruct x; try destruct bm; lia.
   - rewrite Emc. destruct x as [m o | |]; try (solve [destruct (a_minc2 _ _ HA) as [Bz | [k0 [Bz1 Bz2]]]; [left; auto | right; exists k0; rewrite El, Kg; auto]]).
-    destruct (Hent m o eq_refl) as [_ [Hn [[k [K1 K2]] B4]]].
+    destruct bm eqn:Eb; [| solve [destruct (a_minc2 _ _ HA) as [Bz | [k0 [Bz1 Bz2]]]; [left; auto | right; exists k0; rewrite El, Kg; auto]]].
+    destruct (Hent m o eq_refl) as [_ [Hn B4]]. destruct (proj1 Hbm eq_refl) as [k [K1 K2]].
     destruct (N.le_gt_cases m (F s T FMinc)) as [Le | Gt].
     + replace (N.max (F s T FMinc) m) with (F s T FMinc) by lia. (destruct (a_minc2 _ _ HA) as [Bz | [k0 [Bz1 Bz2]]]; [left; auto | right; exists k0; rewrite El, Kg; auto]).
     + replace (N.max (F s T FMinc) m) with m by lia. right. exists k. rewrite El, Kg. split; auto.
@@ -209,6 +229,7 @@ Proof.
   apply sent_by_In in C. destruct C as [e0 [Ce1 Ce2]]. destruct e0; try discriminate. beq. subst.
   assert (Hsnd : exists p0 a0 o0 m0 f0 secs0, In (EPwSend r T p0 ks a0 o0 m0 f0 secs0) (s_sent s)) by eauto 10.
   clear Ce1. clear p async onepc m f secs.
+  match type of H with context [sent_by s ?pp] => set (req1 := sent_by s pp) in * end. clearbody req1.
   match type of H with context [setc (add_dlv s ?ee) T ?cc] => set (c' := cc) in *; set (e' := ee) in * end.
   change (setc (add_dlv s e') T c') with (add_dlv (setc s T c') e') in H.
   set (b := setc s T c') in *.
@@ -231,7 +252,7 @@ Proof.
   assert (RC : (forall f0, f0 <> FStFb -> cn c' f0 = cn (getc s T) f0) /\
                c_lm c' = c_lm (getc s T) /\ c_all c' = c_all (getc s T) /\ c_pwok c' = c_pwok (getc s T) /\
                (cn c' FStFb = 0 -> cn (getc s T) FStFb = 0 /\
-                  (fb (getc s T) FTriedA = true -> fb (getc s T) FTried1 = false -> forall m o, x = PwOk m o -> o = 0 -> m <> 0)) /\
+                  (fb (getc s T) FTriedA = true -> forall m o, x = PwOk m o -> o = 0 -> m <> 0)) /\
                (forall k, lam c' k = match x with PwOk m o => if (o =? 0) && mem k fresh then Some m else lam (getc s T) k
                                                  | _ => lam (getc s T) k end) /\
                forall k, kcnt c' KSent k = kcnt (getc s T) KSent k /\ kcnt c' KNeg k = kcnt (getc s T) KNeg k /\
@@ -242,7 +263,7 @@ Proof.
     - unfold commit_point_pw. repeat (rewrite ?fb_add_kl; try rewrite fb_setn_ne by discriminate).
       assert (Efb : forall g cc lst mm, fb (add_lam cc lst mm) g = fb cc g) by reflexivity.
       destruct (o0 =? 0) eqn:Eo; rewrite ?Efb, ?fb_add_kl;
-        destruct (fb (getc s T) FTriedA), (fb (getc s T) FTried1) eqn:Et, (m0 =? 0) eqn:Em0; cbn [orb andb]; rd;
+        destruct (fb (getc s T) FTriedA), (fb (getc s T) FTried1) eqn:Et, (m0 =? 0) eqn:Em0, req1; cbn [orb andb]; rd;
         repeat split; try reflexivity; intros; try discriminate;
         try (rewrite ?cn_setn_ne by auto; reflexivity);
         try (match goal with Hx : PwOk _ _ = PwOk _ _ |- _ => inversion Hx; subst end; apply N.eqb_neq in Em0; auto; fail);
@@ -253,18 +274,16 @@ Proof.
     - rd. repeat split; try reflexivity; intros; try discriminate; repeat rewrite kcnt_add_kl; cbn; lia. }
   destruct RC as [Rf [R8 [R9 [R10 [Rst [Rl Rk]]]]]]. clearbody c'.
   unfold hasm, F in *. rewrite Gc in *.
-  rewrite (Rf FHasm), (Rf FTriedA), (Rf FTried1), (Rf FFb) in * by discriminate. destruct (Rst H4') as [H4 Hm0].
+  rewrite (Rf FHasm), (Rf FTriedA), (Rf FFb) in * by discriminate. destruct (Rst H4') as [H4 Hm0].
+  assert (H2 : no1pc s T) by (intros r0 ks0 m0 o0 Hi; apply (H2' r0 ks0 m0 o0); rewrite Hd'; right; exact Hi).
   assert (Am : asyncm s T) by (repeat split; auto).
   pose proof (AI Am) as HA. destruct (asyncm_cp _ _ Am) as [Hcp [_ Hh]]. rewrite Hcp in C1. cbn [negb orb] in C1.
   assert (Hcnt : forall k, In k ks -> kcnt (getc s T) KDlv k + occ k ks <= kcnt (getc s T) KSent k).
   { intros k Hk. pose proof (forallb_In _ _ _ C1 Hk) as Cx. cbn beta in Cx. apply N.leb_le in Cx. auto. }
   (* the shape of the result *)
   assert (Hx2 : forall m o, x = PwOk m o -> o = 0 /\ m <> 0).
-  { intros m o ->. destruct (N.eq_dec o 0) as [-> | Ho].
-    - split; auto. apply (Hm0 (proj2 (fb_true _ _) H1') (proj2 (fb_false _ _) H2') m 0 eq_refl eq_refl).
-    - exfalso. apply N.eqb_neq in Ho. rewrite Ho in C0. cbn [orb] in C0. apply sent_by_In in C0. destruct C0 as [e0 [E1 E2]].
-      destruct e0; try discriminate. match type of E2 with (if ?bb then _ else _) = true => destruct bb; try discriminate end.
-      apply N.eqb_eq in E2. subst. apply (g_1pc_sent _ _ G) in E1. unfold F in E1. contradiction. }
+  { intros m o ->. assert (o = 0) as -> by (apply (H2' r ks m o); rewrite Hd'; left; reflexivity).
+    split; auto. apply (Hm0 (proj2 (fb_true _ _) H1') m 0 eq_refl eq_refl). }
   (* per-key effect *)
   assert (Kk : forall k, (In k ks /\ exists m, x = PwOk m 0 /\
                           ((kget s T k = Unlocked /\ kget s' T k = Locked m /\ mem k fresh = true) \/
@@ -338,15 +357,14 @@ Proof.
   assert (Old : forall y, In y (s_dlv s) -> In y (s_dlv s')) by (intros; rewrite Hd'; right; auto).
   clear H. constructor; intros.
   - apply Hsent in H; [| discriminate]. eapply (a_send _ _ HA); eauto.
-  - rewrite Hd' in H. rewrite Em. destruct H as [H | H].
+  - rewrite Hd' in H. destruct H as [H | H].
     + unfold e' in H. inversion H. subst r0 ks0 x. destruct (Hx2 m o eq_refl) as [-> Hmn]. repeat split; auto.
-      * cbn [negb andb N.eqb] in C2. rewrite Hh, Hcp in C2. apply N.eqb_neq in Hmn. rewrite Hmn in C2. cbn [negb andb orb] in C2.
-        apply existsb_exists in C2. destruct C2 as [k [K1 K2]]. apply mem_In in K2. exists k. auto.
-      * intros k Hk. destruct (Kk k) as [[_ [m1 [Ex [[A1 [A2 A3]] | [A1 [A2 A3]]]]]] | [_ A1]].
-        -- inversion Ex. subst m1. left. unfold lamk. rewrite Gc, Rl. cbn [N.eqb andb]. rewrite A3. auto.
-        -- inversion Ex. subst m1. apply Eor. auto.
-        -- exfalso. eapply A1; eauto.
-    + destruct (a_entry _ _ HA _ _ _ _ H) as [B1 [B2 [B3 B4]]]. repeat split; auto.
+      intros k Hk. destruct (Kk k) as [[_ [m1 [Ex [[A1 [A2 A3]] | [A1 [A2 A3]]]]]] | [_ A1]].
+      * inversion Ex. subst m1. left. unfold lamk. rewrite Gc, Rl. cbn [N.eqb andb]. rewrite A3. auto.
+      * inversion Ex. subst m1. apply Eor. auto.
+      * exfalso. eapply A1; eauto.
+    + destruct (a_entry _ _ HA _ _ _ _ H) as [B1 [B2 B4]]. repeat split; auto.
+  - unfold F. rewrite Gc, (Rf F1pcTs) by discriminate. apply (a_1pcts _ _ HA).
   - unfold lamk in H. rewrite Gc in H. apply El2 in H. destruct H as [H | [o [Ex [_ _]]]]; [eapply (a_lam _ _ HA); eauto |].
     destruct (Hx2 _ _ Ex). auto.
   - unfold kc. rewrite Gc. destruct (Rk k) as [E1 [E2 [_ [E4 E5]]]]. rewrite E1, E2, E4, E5. destruct (a_cnt _ _ HA k) as [B1 B2]. unfold kc in *.
